@@ -7,5 +7,8 @@ FACETS = [("SearchTrace.tla", "SearchTrace.cfg", KEEP, {"send", "recv", "open", 
 
 
 def run(ctx):
+    r = ctx.model_check("Resolver/SearchModel.tla", "SearchModel.cfg", workers=4, timeout=300)
+    if r.violation:
+        raise vlib.MachineryError("SearchModel.tla violates %s" % r.violation)
     gens = [{"module": "Gen_C12.tla", "cfg": "Gen_C12_quick.cfg" if ctx.quick else "Gen_C12_thorough.cfg", "name": "bfs"}]
     simlib.engine_check(ctx, gens, FACETS, labels=("c12.",))
